@@ -106,13 +106,13 @@ class FunctionReport:
     errors: List[str] = field(default_factory=list)
 
 
-def generate(contract: FunctionContract, *, max_paths: int = 20000) -> FunctionReport:
+def generate(contract: FunctionContract, *, max_paths: int = 20000, scenarios: Optional[Sequence[str]] = None) -> FunctionReport:
     """Symbolically execute the real function under its contract; collect named obligations."""
     fi = get_function(contract.qualname)
     rep = FunctionReport(qualname=contract.qualname, sha256=fi.sha256())
     t0 = time.time()
     seen = {}
-    for scen in contract.scenarios():
+    for scen in (scenarios if scenarios is not None else contract.scenarios()):
         registry = Registry()
         registry.set_loops(contract.qualname, getattr(contract, 'loops', {}) or {})
         for qn, lp in (getattr(contract, 'extra_loops', {}) or {}).items():
